@@ -13,6 +13,7 @@ type FindingEntry struct {
 	ID       string `json:"id"`
 	Property string `json:"property"`
 	Class    string `json:"class"`
+	Kind     string `json:"kind"` // "switch": Class names a switch of the TLA+ specification (Fx); "class": a predicate below
 	What     string `json:"what"`
 	Witness  any    `json:"witness"`
 	Status   string `json:"status"`
@@ -57,4 +58,22 @@ func (fs *Findings) classify(f *Failure, rc *ReplayCase, b *Built) string {
 		}
 	}
 	return ""
+}
+
+// switchID names the open switch-kind findings (the specification computed the deviant
+// value with all of them on).
+func (fs *Findings) switchID() string {
+	id := ""
+	for _, e := range fs.Entries {
+		if e.Status == "open" && e.Kind == "switch" {
+			if id != "" {
+				id += "+"
+			}
+			id += e.ID
+		}
+	}
+	if id == "" {
+		id = "unlisted-switch"
+	}
+	return id
 }
